@@ -170,48 +170,58 @@ def listSet {α} : List α → Nat → α → List α
   | _ :: xs, 0, y => y :: xs
   | x :: xs, n + 1, y => x :: listSet xs n y
 
+/-- the RESET rule: a pristine option loses its defaults on the first store -/
+def dropDefaults (o : Opt) : Opt × List CbCall :=
+  if o.flags.reset then
+    ((freeValue o).1.setFlags { (freeValue o).1.flags with reset := false }, (freeValue o).2)
+  else (o, [])
+
+/-- the cell that is written: (index, new value list, release callbacks) -/
+def setoptStore (ci : CfgInfo) (o1 : Opt) (cv : Conv) (value : Option Bytes) (append : Bool) (found : Option Nat) :
+    Nat × List Val × List CbCall :=
+  let n := o1.vals.length
+  -- index of the cell and whether it is new (cfg_addval also sets MODIFIED)
+  let idx : Nat := if append then (match found with | some i => i | none => n) else 0
+  let isNew : Bool := append && found.isNone
+  let old : Option Val := if isNew then none else o1.vals[idx]?
+  let nv : Val :=
+    match cv with
+    | .int v => .int v
+    | .flt b => .flt b
+    | .bool b => .bool b
+    | .str s => .str (some s)
+    | .ptr p => .ptr p
+    | .sec =>
+      (match old with
+       | some (.sec c) => if o1.flags.multi then .sec (mkSection ci o1 value) else .sec c
+       | _ => .sec (mkSection ci o1 value))
+  let ev2 : List CbCall :=
+    match cv, old with
+    | .ptr _, some (.ptr (some q)) => if o1.info.freeCb then [.free q] else []
+    | .sec, some (.sec c) => if o1.flags.multi then freeEvCfg c else []
+    | _, _ => []
+  (idx, if isNew then o1.vals ++ [nv] else listSet o1.vals idx nv, ev2)
+
 def setopt (orc : Oracle) (k : Nat) (ci : CfgInfo) (o : Opt) (value : Option Bytes) : SetOut :=
   match setoptConvert orc k o value with
-  | .error (ds, cs) => ⟨o, none, ds, cs⟩
-  | .ok (cv, cs) =>
+  | .error e => ⟨o, none, e.1, e.2⟩
+  | .ok p =>
     -- locate the cell
-    let (o1, ev1) : Opt × List CbCall :=
-      if o.flags.reset then
-        let (o', ev) := freeValue o
-        (o'.setFlags { o'.flags with reset := false }, ev)
-      else (o, [])
+    let o1 := (dropDefaults o).1
+    let ev1 := (dropDefaults o).2
     let n := o1.vals.length
     let append := n == 0 || o1.flags.multi || o1.flags.list
     if append && o1.ty == .sec && o1.flags.title && n != 0 && value.isNone then
-      ⟨o1, none, [], cs ++ ev1⟩
+      ⟨o1, none, [], p.2 ++ ev1⟩
     else
       let found : Option Nat :=
         if append && o1.ty == .sec && o1.flags.title then
           (match value with | some t => findTitle ci.flags.nocase t o1.vals 0 | none => none)
         else none
-      if found.isSome && o1.flags.noTitleDupes then ⟨o1, none, [.dupTitle], cs ++ ev1⟩
+      if found.isSome && o1.flags.noTitleDupes then ⟨o1, none, [.dupTitle], p.2 ++ ev1⟩
       else
-        -- index of the cell and whether it is new (cfg_addval also sets MODIFIED)
-        let (idx, isNew) : Nat × Bool :=
-          if append then (match found with | some i => (i, false) | none => (n, true)) else (0, false)
-        let old : Option Val := if isNew then none else o1.vals[idx]?
-        let (nv, ev2) : Val × List CbCall :=
-          match cv with
-          | .int v => (.int v, [])
-          | .flt b => (.flt b, [])
-          | .bool b => (.bool b, [])
-          | .str s => (.str (some s), [])
-          | .ptr p =>
-            (.ptr p, match old with
-              | some (.ptr (some q)) => if o1.info.freeCb then [.free q] else []
-              | _ => [])
-          | .sec =>
-            (match old with
-             | some (.sec c) =>
-               if o1.flags.multi then (.sec (mkSection ci o1 value), freeEvCfg c) else (.sec c, [])
-             | _ => (.sec (mkSection ci o1 value), []))
-        let vals' := if isNew then o1.vals ++ [nv] else listSet o1.vals idx nv
-        ⟨.mk o1.info { o1.flags with modified := true } o1.subs vals' o1.comment, some idx, [], cs ++ ev1 ++ ev2⟩
+        let st := setoptStore ci o1 p.1 value append found
+        ⟨.mk o1.info { o1.flags with modified := true } o1.subs st.2.1 o1.comment, some st.1, [], p.2 ++ ev1 ++ st.2.2⟩
 
 /-! ## `cfg_opt_getval` + typed setters -/
 
